@@ -609,6 +609,7 @@ class RemoteStreamFlowPath(
                 path,
                 "&&",
                 "sha1sum",
+                "<",
                 path,
                 "|",
                 "awk",
